@@ -5,7 +5,7 @@
 
    tok_cut x y      x is y, or x is an unquoted scalar whose bytes are a non-empty PREFIX of the
                     scalar y at the same place (y unquoted, or the header it would have become had
-                    the following `{` still been there).  A quoted scalar, an operator, a parameter
+                    the following `{` still been there; "non-empty" unless y itself is empty).  A quoted scalar, an operator, a parameter
                     is never shortened: it is either complete or the parse is an error.
    prefix_cut t F   t is F cut short: every token of t but the last is literally the token of F
                     at the same index (absolute indices included), the last one is tok_cut.
@@ -13,7 +13,7 @@
                     top-level field is the original's, the field being cut is absent or its
                     scalar value is shorter), or
                     (b) exactly one closing bracket was missing: t = F[0..p) ++ Object .. End p
-                    where F[p] is the top-level container being cut; the tokens before p are
+                    where p is the index of the top-level container being cut; the tokens before p are
                     literally F's, the body is F's body cut short, and the parser closed it
                     (the documented one-missing-bracket tolerance of the text format). *)
 From JV Require Import Bytes Tables TextTok TextTape TextDoc.
@@ -23,13 +23,11 @@ Definition bytes_prefix (a b : bytes) : Prop := exists r, b = a ++ r.
 
 Definition tok_cut (x y : ttok) : Prop :=
   x = y \/
-  exists s s', x = TUnquoted s /\ (y = TUnquoted s' \/ y = THeader s') /\ bytes_prefix s s' /\ s <> [].
+  exists s s', x = TUnquoted s /\ (y = TUnquoted s' \/ y = THeader s') /\ bytes_prefix s s' /\ (s <> [] \/ s' = []).
 
 Definition prefix_cut (t F : ttape) : Prop :=
   t = [] \/
   exists t0 x y, t = t0 ++ [x] /\ firstn (length t0) F = t0 /\ nth_error F (length t0) = Some y /\ tok_cut x y.
-
-Definition is_cont (x : ttok) : bool := match x with TArray _ _ | TObject _ _ => true | _ => false end.
 
 Definition consistent_tape (F t : ttape) : Prop :=
   prefix_cut t F \/
@@ -37,15 +35,9 @@ Definition consistent_tape (F t : ttape) : Prop :=
     0 < p /\
     t = firstn p F ++ TObject (p + 1 + length body) false :: body ++ [TEnd p] /\
     length (firstn p F) = p /\
-    nth_error F p = Some y /\ is_cont y = true /\
+    nth_error F p = Some y /\
     prefix_cut body (skipn (S p) F).
 
 (* the result of parsing a truncated rendering of d *)
 Definition consistent (d : doc) (r : outcome (ttape * bool)) : Prop :=
   exists t b, r = Ok (t, b) /\ consistent_tape (flatten d) t.
-
-(* what the definition implies, in the words of the property: position by position, every scalar
-   of the result is a prefix of (or equal to) the scalar at the same index of the original tape,
-   except for the synthesized End of case (b) *)
-Definition tok_le (x y : ttok) : Prop :=
-  tok_cut x y \/ (is_cont x = true /\ is_cont y = true).
